@@ -76,12 +76,14 @@ def run(chk):
         cases.append((cid + ":full", img, "full", cid))
         b = sections(img)
         cuts = set()
-        if tier == "quick" and cid != "img0":
+        # exhaustive over the cut points of the first image (two in thorough) when it is small; otherwise boundaries + a sample + all of the
+        # relocation section (the model loader re-parses every prefix: the cost is quadratic in the image size)
+        if (tier == "quick" and cid != "img0") or (tier != "quick" and cid not in ("img0", "img1")) or len(img) > (12000 if tier == "quick" else 20000):
             for x in b:
                 for dd in (-9, -8, -7, -1, 0, 1, 7, 8, 9):
                     if 0 <= x + dd < len(img):
                         cuts.add(x + dd)
-            for _ in range(300):
+            for _ in range(300 if tier == "quick" else 3000):
                 cuts.add(chk.rng.below(len(img)))
             # the relocation section is where a cut is hardest to see: all of it
             for x in range(b[-2], len(img)):
@@ -184,7 +186,7 @@ def run(chk):
         nontriv.add((kind, " ".join(mo.split()[:2]) if not mo.startswith("ok") else "ok", len(bs) % 8 if kind == "cut" else label.split(":")[-1][:12]))
     chk.note(evaluations=len(cases), distinct_nontrivial=len(nontriv), input_kinds=kinds, traces_validated_against_impl=agree,
              exhaustive=False,
-             rule="images compiled from generated rule sets; every prefix (exhaustive for img0 / all images in thorough), "
+             rule="images compiled from generated rule sets; every prefix (exhaustive for img0 / for two images in thorough, sampled around section boundaries and all of the relocation section for the others), "
                   "section boundaries +-9, all of the relocation section; single-field corruptions of magic, version, "
                   "num_buffers, every buffer offset/size; random and byte-flipped files. distinct = (kind, model verdict, "
                   "cut position mod 8 or corrupted field)")
